@@ -31,9 +31,19 @@
 (* to find): "config_wins" = uri and uripost let the option override the   *)
 (* file's header (pandora before the fix), "host_target" = Host always     *)
 (* from the target, "opt_always" = option headers appended even when the   *)
-(* entry defines the header.                                               *)
+(* entry defines the header, "empty_undefined" = an entry header with an   *)
+(* empty value counts as not defined, "live_map" = in a uri/uripost file   *)
+(* without `headers` option an entry sees header lines that FOLLOW it.     *)
+(*                                                                         *)
+(* Multi-entry files: a file case f = [kind "file", fmt, ssl, preload,     *)
+(* opts, entries <<[hl, uri, body]>>]; hl are the header lines written     *)
+(* before the entry.  In uri/uripost files `[Name: value]` / `[Host: h]`   *)
+(* lines set the running header state that every LATER entry inherits (a   *)
+(* later line for the same name replaces the value); raw/json entries      *)
+(* carry their own headers only.  EntryCase(f, k) is the single-entry case *)
+(* the k-th entry amounts to, and Wire(EntryCase(f, k)) what must arrive.  *)
 (***************************************************************************)
-EXTENDS Naturals, Sequences, FiniteSets, SequencesExt
+EXTENDS Naturals, Sequences, FiniteSets, SequencesExt, TLC
 
 CONSTANTS Formats,      \* subset of {"uri", "uripost", "raw", "json"}
           Methods,      \* method tokens for the formats that carry one (raw, json)
@@ -42,6 +52,8 @@ CONSTANTS Formats,      \* subset of {"uri", "uripost", "raw", "json"}
           Bodies,       \* non-empty body tokens (the empty body is always included)
           EntryHdrs,    \* sequence of [n, v]: alphabet of entry header fields
           OptHdrs,      \* sequence of [n, v]: alphabet of option header fields (may contain Host)
+          EmptyHdrs,    \* sequence of [n, v]: entry header fields with an empty / blank value (used one at a time)
+          Files,        \* multi-entry file cases
           SSLModes,     \* subset of BOOLEAN
           CompressModes,\* subset of BOOLEAN (TRUE is explored in the side space only)
           Variant
@@ -73,23 +85,34 @@ Cases == UNION { { Case(f, s, FALSE, m, u, h, eh, oh, b) :
                  { Case(f, s, zu[1], m, zu[2], FALSE, eh, <<>>, b) :
                      m \in MethodsOf(f), b \in BodiesOf(f), s \in SSLModes, eh \in SubSeqsOf(EntryHdrs),
                      zu \in (CompressModes \X (URIs \cup ExtraURIs)) \ ({FALSE} \X URIs) }
+                 \cup
+                 \* an entry header that is present with an empty (or blank) value, against every option list
+                 { Case(f, s, FALSE, m, "/", FALSE, <<e>>, oh, b) :
+                     m \in MethodsOf(f), b \in BodiesOf(f), s \in SSLModes, e \in Rng(EmptyHdrs), oh \in SubSeqsOf(OptHdrs) }
                  : f \in Formats }
 
 -----------------------------------------------------------------------------
 OptHost(c) == LET hs == {o \in Rng(c.opts) : o.n = "Host"}
               IN  IF hs = {} THEN "" ELSE (CHOOSE o \in hs : TRUE).v
 
+\* the Host the entry names: a token; cases derived from files say which one (hostv)
+AmmoHost(c) == IF "hostv" \in DOMAIN c THEN c.hostv ELSE "AMMOHOST"
+
 WireHost(c) ==
     IF Variant = "host_target" THEN "TARGETHOST"
-    ELSE IF c.host THEN "AMMOHOST"
+    ELSE IF c.host THEN AmmoHost(c)
     ELSE IF OptHost(c) # "" THEN OptHost(c)
     ELSE "TARGETHOST"
 
 ConfigWins(c) == Variant = "config_wins" /\ c.fmt \in {"uri", "uripost"}
 
+\* a field value travels without surrounding blanks: a blank value is the empty value
+WireVal(v) == IF v = " " THEN "" ELSE v
 \* the values a header list gives to a (canonical) name, in list order
 Vals(hs, n) == LET sel == SelectSeq(hs, LAMBDA h : Canon(h.n) = n)
-               IN  [k \in 1..Len(sel) |-> sel[k].v]
+               IN  [k \in 1..Len(sel) |-> WireVal(sel[k].v)]
+\* "defined" means present, whatever the value
+EmptyOnly(hs, n) == \A k \in DOMAIN Vals(hs, n) : Vals(hs, n)[k] = ""
 
 \* header fields other than Host, as [n |-> canonical name, v |-> <<values in order>>]: a name the entry
 \* defines carries the entry's values, any other name of the option list carries the option's values
@@ -100,7 +123,7 @@ WireHeaders(c) ==
         Field(n) ==
             IF ConfigWins(c) /\ n \in optNames
             THEN [n |-> n, v |-> <<Vals(c.opts, n)[Len(Vals(c.opts, n))]>>]       \* header.Set: the last one wins
-            ELSE IF n \in entNames
+            ELSE IF n \in entNames /\ ~(Variant = "empty_undefined" /\ n \in optNames /\ EmptyOnly(c.ehdr, n))
             THEN [n |-> n, v |-> IF Variant = "opt_always" THEN Vals(c.ehdr, n) \o Vals(c.opts, n) ELSE Vals(c.ehdr, n)]
             ELSE [n |-> n, v |-> Vals(c.opts, n)]
     IN  {Field(n) : n \in entNames \cup optNames}
@@ -134,6 +157,29 @@ NoForeign(c, o)    == \A h \in Rng(o.hdr) \ Wire(c).headers :
                           /\ h.n \notin {w.n : w \in Wire(c).headers}
 
 -----------------------------------------------------------------------------
+(* Multi-entry files. *)
+RECURSIVE Concat(_)
+Concat(ss) == IF ss = <<>> THEN <<>> ELSE Head(ss) \o Concat(Tail(ss))
+
+\* the header lines in effect for the k-th entry of file f
+LinesFor(f, k) ==
+    IF f.fmt \in {"uri", "uripost"}
+    THEN LET upto == IF Variant = "live_map" /\ f.opts = <<>> THEN Len(f.entries) ELSE k
+         IN  Concat([j \in 1..upto |-> f.entries[j].hl])          \* running state: everything written before the entry
+    ELSE f.entries[k].hl                                          \* raw / json: the entry's own fields
+\* a later line for a name replaces the earlier value
+LastVal(ls, n) == LET sel == SelectSeq(ls, LAMBDA h : Canon(h.n) = n) IN sel[Len(sel)].v
+
+EntryCase(f, k) ==
+    LET ls    == LinesFor(f, k)
+        names == Names(ls) \ {"Host"}
+        eh    == SetToSeq({[n |-> n, v |-> LastVal(ls, n)] : n \in names})
+        hasH  == "Host" \in Names(ls)
+    IN  Case(f.fmt, f.ssl, FALSE, IF f.fmt = "uripost" THEN "POST" ELSE "GET", f.entries[k].uri, hasH, eh, f.opts,
+             f.entries[k].body)
+        @@ [hostv |-> IF hasH THEN LastVal(ls, "Host") ELSE ""]
+
+-----------------------------------------------------------------------------
 (* Design-level sanity of the rule set itself, over the whole case space (one TLC state per case). *)
 VARIABLE C          \* the case under inspection
 
@@ -150,7 +196,7 @@ NoInvention == /\ \A w \in Wire(C).headers : w.v = Vals(C.ehdr, w.n) \/ w.v = Va
                /\ \A w1, w2 \in Wire(C).headers : w1.n = w2.n => w1 = w2
                /\ \A w \in Wire(C).headers : w.n # "Host" /\ w.v # <<>>
 \* Host: the ammo's, else the option's, else the target's
-HostPrecedence == /\ C.host => Wire(C).host = "AMMOHOST"
+HostPrecedence == /\ C.host => Wire(C).host = AmmoHost(C)
                   /\ (~C.host /\ OptHost(C) # "") => Wire(C).host = OptHost(C)
                   /\ (~C.host /\ OptHost(C) = "") => Wire(C).host = "TARGETHOST"
 \* the rule is the same for every format: the record depends on the format only through method/body domain
@@ -161,4 +207,17 @@ FormatsAlike == \A f \in Formats :
 \* the rest is carried unchanged, the connection goes to the target with the configured scheme
 Unchanged == /\ Wire(C).method = C.method /\ Wire(C).uri = C.uri /\ Wire(C).body = C.body
              /\ Wire(C).server = "target" /\ (Wire(C).scheme = "https") = C.ssl
+
+\* design-level sanity for files (state variable C holds a file case, config HttpWire_files.cfg)
+FInit == C \in Files
+Prefix(f, k) == [f EXCEPT !.entries = SubSeq(f.entries, 1, k)]
+\* what an entry sends does not depend on anything written after it
+LaterLinesDontMatter == \A k \in DOMAIN C.entries : Wire(EntryCase(C, k)) = Wire(EntryCase(Prefix(C, k), k))
+\* uri/uripost: a header line stays in effect for later entries until it is redefined; raw/json: no carry-over
+CarryOver == \A k \in DOMAIN C.entries : \A j \in 1..k : \A h \in Rng(C.entries[j].hl) :
+                (C.fmt \in {"uri", "uripost"} /\ h.n # "Host" /\ ~\E i \in (j+1)..k : \E g \in Rng(C.entries[i].hl) : Canon(g.n) = Canon(h.n))
+                  => \E w \in Wire(EntryCase(C, k)).headers : w.n = Canon(h.n)
+OwnOnly == C.fmt \in {"raw", "json"} =>
+              \A k \in DOMAIN C.entries : {w.n : w \in Wire(EntryCase(C, k)).headers} =
+                                            (Names(C.entries[k].hl) \cup {o.n : o \in Rng(C.opts)}) \ {"Host"}
 =============================================================================
